@@ -85,7 +85,11 @@ def run(c, index, tier):
     w = None
     if ch.boolean("w", 0.4, "weights"):
         w = numpy.round(rs.rand(n) + 0.5, 4) + numpy.arange(n) * 1e-4  # distinct weights
-        if n >= 3 and ch.boolean("w", 0.3, "zero-weights"):
+        if ch.boolean("w", 0.15, "constant-weights"):
+            # all rows carry the same weight, not 1: still the weight of each drawn row
+            w = numpy.full(n, 2.5)
+            c.probe("constant_weights")
+        elif n >= 3 and ch.boolean("w", 0.3, "zero-weights"):
             # null weights are valid sample weights: such rows stay eligible
             w[rs.permutation(n)[: max(1, n // 3)]] = 0.0
             c.probe("some_weights_are_zero")
@@ -272,9 +276,18 @@ def run(c, index, tier):
         other = n_est + 1 + ch.draw("w", 5, "other-n_estimators") if ch.boolean("w", 0.5, "more") else max(1, n_est - 1 - ch.draw("w", 3, "fewer"))
         U.sut(c, "set_params(n_estimators)", model.set_params, n_estimators=other)
         c.probe("n_estimators_changed_after_fit")
-    ok, pa = U.sut(c, "predict_all", model.predict_all, Xq)
-    ok2, p = U.sut(c, "predict", model.predict, Xq)
-    ok3, ps = U.sut(c, "predict_sorted", model.predict_sorted, Xq)
+    # a tuning knob of the environment, drawn per run: scikit-learn's
+    # working_memory (code that processes a batch by blocks consults it) --
+    # a value so small that every batch is "too large"
+    import sklearn
+
+    knob = ch.weighted("w", [(None, 3), (1e-4, 1)], "working_memory")
+    with sklearn.config_context(**({} if knob is None else {"working_memory": knob})):
+        ok, pa = U.sut(c, "predict_all", model.predict_all, Xq)
+        ok2, p = U.sut(c, "predict", model.predict, Xq)
+        ok3, ps = U.sut(c, "predict_sorted", model.predict_sorted, Xq)
+    if knob is not None:
+        c.probe("tiny_working_memory")
     for name, o, val in (("predict_all", ok, pa), ("predict", ok2, p), ("predict_sorted", ok3, ps)):
         if not o:
             _viol(c, seen, "predict-raised", (name, type(val).__name__), "%s raised %s" % (name, U.short_exc(val)))
